@@ -240,8 +240,11 @@ def run_case(case, ctx):
             _SHARED.update(args)
         args = _SHARED  # the very same dict object for every analysis of the sequence
     try:
-        em = locate_droplets(ScalarField(grid, data), threshold=thr, refine=True, refine_args=args)
+        field = ScalarField(grid, data)
+        image = field.data.tobytes()
+        em = locate_droplets(field, threshold=thr, refine=True, refine_args=args)
         ctx.op()
+        ctx.check("C05.image-unmodified", field.data.tobytes() == image, None, tags)
     except Exception as e:  # noqa
         ctx.check("C05.no-raise", False, {"exc": repr(e)[:300], "refine_args": {k: v for k, v in args.items()}}, tags)
         return
